@@ -13,7 +13,7 @@ BASES = {
     'mix': ([('t', None), ('x', 3), ('y', 2)], [('fa', D.NC_BYTE, [1]), ('ra', D.NC_SHORT, [0, 2]), ('fb', D.NC_DOUBLE, [2]), ('rb', D.NC_BYTE, [0])]),
     'mix1': ([('t', None), ('x', 3)], [('fa', D.NC_INT, [1]), ('ra', D.NC_SHORT, [0, 1])]),
 }
-ALIGN = {'default': None, 'tight': 'nc_header_align_size=4;nc_var_align_size=4;nc_record_align_size=4'}
+ALIGN = {'default': None, 'tight': 'nc_header_align_size=4;nc_var_align_size=4;nc_record_align_size=4', 'gap': None}     # 'gap': free space between the fixed and the record section (v_minfree)
 
 
 def delta(p, kind, k, dims):
@@ -28,6 +28,8 @@ def delta(p, kind, k, dims):
         p.do(dict(op='def_var', name='nr%d' % k, xtype=D.NC_BYTE, dims=[un]))
     elif kind == 'both':
         delta(p, 'fixed_var', k, dims); delta(p, 'rec_var', k, dims); delta(p, 'att_large', k, dims)
+    elif kind == 'att_large_rec':
+        delta(p, 'att_large', k, dims); delta(p, 'rec_var', k, dims)
     elif kind == 'realign': pass
     else: raise ValueError(kind)
 
@@ -37,7 +39,7 @@ def enddef_op(kind, k):
     return dict(op='enddef')
 
 
-DELTAS = ['att_small', 'att_large', 'fixed_var', 'rec_var', 'both', 'realign']
+DELTAS = ['att_small', 'att_large', 'fixed_var', 'rec_var', 'both', 'realign', 'att_large_rec']
 
 
 def gen(fmts, nps, units, nrecs_list, bases, aligns, reps=(1, 2)):
@@ -49,7 +51,7 @@ def gen(fmts, nps, units, nrecs_list, bases, aligns, reps=(1, 2)):
         p = Prog('R-f%d-%s-%s-r%d-%s-x%d-np%d-u%s' % (fmt, bname, al, nrec, dk, rep, np, unit), np, fmt, ALIGN[al], env)
         for n, l in dims: p.do(dict(op='def_dim', name=n, len=l))
         for n, t, dd in vars_: p.do(dict(op='def_var', name=n, xtype=t, dims=dd))
-        p.do(dict(op='enddef'))
+        p.do(dict(op='_enddef', h_minfree=0, v_align=0, v_minfree=3000, r_align=0) if al == 'gap' else dict(op='enddef'))
         p.write_all(nrec=nrec if nrec else 1) if nrec or not any(d[1] is None for d in dims) else [p.do(dict(op='put', v=i, start=[0] * len(v[2]), count=p.m.shape(i), vals=[(i * 5 + k) % 90 + 1 for k in range(p.m.inner(i))], coll=1, mem=D.XT_MEM[v[1]])) for i, v in enumerate(vars_) if not p.m.isrec(i)]
         for k in range(rep):
             p.do(dict(op='redef'))
@@ -111,7 +113,7 @@ def main(tier=None):
     if thorough:
         progs = gen((1, 2, 5), (1, 2, 3, 4), (None, 8, 24, 64), (0, 1, 3), list(BASES), list(ALIGN))
     else:
-        progs = gen((1, 5), (1, 3), (None, 8), (0, 3), ['rec1odd', 'mix', 'fixed'], ['tight']) + gen((2,), (2, 4), (24,), (1,), ['rec2', 'mix1'], ['default'], reps=(2,))
+        progs = gen((1, 5), (1, 3), (None, 8), (0, 3), ['rec1odd', 'mix', 'fixed'], ['tight']) + gen((2,), (2, 4), (24,), (1,), ['rec2', 'mix1'], ['default'], reps=(2,)) + gen((1,), (1, 2), (None,), (3,), ['mix', 'mix1'], ['gap'], reps=(1,))
     progs += gen_abort((1, 2, 5) if thorough else (1, 5), (1, 2, 3) if thorough else (1, 2))
     results = runner.run_cases(b['vx'], [p.case for p in progs], batch=40)
     moved = 0
